@@ -651,6 +651,11 @@ def record_simple(binary, sc, cfg, runs, timeout=900, only=0):
 def v2rand_configs(tier):
     c = [mk("r3unbuf", [3, 2, 1], 4, "fair", 1, 4, unbuf=(2,)), mk("r4rate", [7, 5, 3, 1], 10, "rate", 2, 5, unbuf=(3,)),
          mk("r2fault", [2, 1], 3, "rate", 1, 4, faults=1, unbuf=(1,)), mk("r5fairlow", [9, 7, 5, 3, 1], 7, "fairlow", 1, 3)]
+    # a sum-preserving custom divider that writes a key which is not a priority: outside the PrioV2 model (nomodel: monitors only)
+    sp = mk("r3spare", [3, 2, 1], 5, "spare", 2, 8)
+    sp["items"]["3"] = 0
+    sp.update(nomodel=True, extra=dict(stall=True))
+    c.append(sp)
     if tier == "thorough":
         c += [mk("r6rate", [20, 10, 7, 5, 2, 1], 45, "rate", 3, 6, unbuf=(7, 2)), mk("r3fault", [3, 2, 1], 6, "rate", 2, 4, faults=1)]
     return c
@@ -674,6 +679,9 @@ def record_v2rand(v, sc, binary, cfg, runs):
                 n_s += 1
             elif not line.startswith('{"e":"Free"'):
                 o.write(line)
+    if cfg.get("nomodel"):
+        return dict(obs=obsf, sched_events=n_s, conf=dict(traces=runs, drift=0, spec_invariant_hits=0, first_unexplained=[], note="outside the model: judged by the monitor only"),
+                    races=races_in(out), wall=wall)
     # trace validation
     name = pm.write_mc(sub, cfg, rows, module="Trace_PrioV2", invariants=["NotStuck", "TraceInvariants"], spec="TSpec")
     shutil.copy(allf, os.path.join(sub, "trace.ndjson"))
